@@ -193,10 +193,34 @@ class LoopTracer:
         src = textwrap.dedent(inspect.getsource(func))
         tree = ast.parse(src)
         off = self.code.co_firstlineno - 1
-        loops = [n for n in ast.walk(tree) if isinstance(n, ast.While) and "n_accepted" in ast.unparse(n.test)]
+        # the loop `while <var> < <bound> [and <draw> > 0]` whose bound is the requested number of points;
+        # the names of the local variables are read from the source, not assumed
+        bound = "N" if kind == "populate" else "n"
+        loops = []
+        for n in ast.walk(tree):
+            if isinstance(n, ast.While):
+                cmps = [c for c in ast.walk(n.test) if isinstance(c, ast.Compare) and len(c.ops) == 1]
+                for c in cmps:
+                    if isinstance(c.ops[0], ast.Lt) and isinstance(c.left, ast.Name) and \
+                            isinstance(c.comparators[0], ast.Name) and c.comparators[0].id == bound:
+                        loops.append((n, c.left.id, cmps))
         if len(loops) != 1:
-            raise RuntimeError(f"{kind}: expected one while loop over n_accepted, found {len(loops)}")
-        w = loops[0]
+            raise RuntimeError(f"{kind}: expected one loop `while <var> < {bound}`, found {len(loops)}")
+        w, self.var, cmps = loops[0]
+        self.draw_var = None
+        for c in cmps:
+            if isinstance(c.ops[0], ast.Gt) and isinstance(c.left, ast.Name) and ast.unparse(c.comparators[0]) == "0":
+                self.draw_var = c.left.id
+        self.prop_var = None
+        for st in w.body:
+            if isinstance(st, ast.AugAssign) and isinstance(st.op, ast.Add) and isinstance(st.target, ast.Name) \
+                    and st.target.id != self.var:
+                self.prop_var = st.target.id
+                break
+        if kind == "populate" and self.prop_var is None:
+            raise RuntimeError("populate: no draw counter found in the loop")
+        if kind == "ins_draw" and self.draw_var is None:
+            raise RuntimeError("draw: no batch-size variable found in the loop test")
         self.head = w.lineno + off
         self.tags = {}
         for n in ast.walk(w):
@@ -204,7 +228,7 @@ class LoopTracer:
                 self.tags[n.lineno + off] = "continue"
             elif isinstance(n, ast.Break):
                 self.tags[n.lineno + off] = "break"
-            elif isinstance(n, ast.Assign) and any(isinstance(t, ast.Name) and t.id == "n_accepted" for t in n.targets):
+            elif isinstance(n, ast.Assign) and any(isinstance(t, ast.Name) and t.id == self.var for t in n.targets):
                 self.tags[n.lineno + off] = "assign"
         self.active = {}        # frame id -> trace
         self.tool = tool
@@ -218,7 +242,7 @@ class LoopTracer:
         tr = self.active.get(id(fr))
         loc = fr.f_locals
         if line == self.head:
-            snap = (int(loc.get("n_accepted", 0)), int(loc.get("n_proposed", 0)))
+            snap = (int(loc.get(self.var, 0)), int(loc.get(self.prop_var, 0)) if self.prop_var else 0)
             if tr is None:
                 slf = loc.get("self")
                 tr = {"kind": self.kind, "heads": [snap], "tags": [[]], "exit": None, "draws0": self.state["draws"]}
@@ -226,7 +250,7 @@ class LoopTracer:
                     tr.update(N=int(loc["N"]), max_samples=int(loc["max_samples"]), drawsize=int(slf.drawsize),
                               accumulate=bool(slf.accumulate_weights), cls=type(slf).__name__)
                 else:
-                    tr.update(n=int(loc["n"]), n_draw=int(loc["n_draw"]))
+                    tr.update(n=int(loc["n"]), n_draw=int(loc[self.draw_var]))
                 self.active[id(fr)] = tr
             else:
                 tr["heads"].append(snap)
@@ -238,7 +262,7 @@ class LoopTracer:
         elif tr is not None:
             tr["tags"][-1].append(self.tags[line])
             if self.tags[line] == "break":
-                tr["exit"] = (int(loc.get("n_accepted", 0)), int(loc.get("n_proposed", 0)))
+                tr["exit"] = (int(loc.get(self.var, 0)), int(loc.get(self.prop_var, 0)) if self.prop_var else 0)
 
     def finish(self, fr, how):
         tr = self.active.pop(id(fr), None)
@@ -258,8 +282,12 @@ def install_tracers(state):
         mon.use_tool_id(tool, "c20")
     except ValueError:
         pass
-    tracers = [LoopTracer(tool, FlowProposal.populate, "populate", state),
-               LoopTracer(tool, ImportanceFlowProposal.draw, "ins_draw", state)]
+    tracers, declined = [], {}
+    for func, kind in ((FlowProposal.populate, "populate"), (ImportanceFlowProposal.draw, "ins_draw")):
+        try:
+            tracers.append(LoopTracer(tool, func, kind, state))
+        except Exception as e:          # a loop shape the tracer has no rule for: the runs still decide
+            declined[kind] = f"{type(e).__name__}: {e}"
     by_code = {t.code: t for t in tracers}
 
     def on_line(code, line):
@@ -284,7 +312,9 @@ def install_tracers(state):
     # PY_UNWIND can only be set globally
     mon.register_callback(tool, mon.events.PY_UNWIND, on_unwind)
     mon.set_events(tool, mon.events.PY_UNWIND)
-    return {"populate_head_line": tracers[0].head, "ins_draw_head_line": tracers[1].head}
+    out = {t.kind + "_head_line": t.head for t in tracers}
+    out.update({k + "_declined": v for k, v in declined.items()})
+    return out
 
 
 def make_model(kind):
